@@ -365,17 +365,17 @@ Proof. vm_compute. reflexivity. Qed.
 Lemma registered_roundtrip_true : registered_roundtrip = true.
 Proof. vm_compute. reflexivity. Qed.
 
-Lemma registered_le : forall r, In r registered -> vle (fst r) current_spec_version = true.
+Lemma registered_le : forall r : version * string, In r registered -> vle (fst r) current_spec_version = true.
 Proof.
-  pose proof registered_le_current_true as H. apply andb_true_iff in H. destruct H as [H _].
-  rewrite forallb_forall in H. exact H.
+  pose proof registered_le_current_true as H. unfold registered_le_current in H.
+  apply andb_true_iff in H. destruct H as [H _]. rewrite forallb_forall in H. exact H.
 Qed.
 
-Lemma registered_rt : forall r, In r registered -> parse_version (version_text (fst r)) = Some (fst r).
+Lemma registered_rt : forall r : version * string, In r registered -> parse_version (version_text (fst r)) = Some (fst r).
 Proof.
-  pose proof registered_roundtrip_true as H. rewrite forallb_forall in H. intros r Hr. specialize (H r Hr).
-  destruct (parse_version (version_text (fst r))) as [v|]; [|discriminate].
-  unfold veqb in H. destruct (vcmp v (fst r)) eqn:E; try discriminate. apply vcmp_eq in E. now subst.
+  pose proof registered_roundtrip_true as H. unfold registered_roundtrip in H. rewrite forallb_forall in H. intros r Hr. specialize (H r Hr). cbv beta in H.
+  destruct (parse_version (version_text (fst r))) as [v|]; [|discriminate H].
+  unfold veqb in H. destruct (vcmp v (fst r)) eqn:E; try discriminate H. apply vcmp_eq in E. now subst.
 Qed.
 
 (* ---- a definition already at (or beyond) the current version is returned as it is -------------------------------- *)
@@ -422,7 +422,9 @@ Proof.
   specialize (Hv ltac:(discriminate)).
   set (step := last (s0 :: steps) no_step) in *.
   assert (Hin : In step (s0 :: steps)) by (apply last_In; discriminate).
-  exists from, f, f', step. repeat split; try assumption.
+  exists from, f, f', step. rewrite Es.
+  split; [reflexivity|]. split; [reflexivity|]. split; [reflexivity|]. split; [exact Hin|].
+  split; [|split; [|exact Hg]].
   - intros r Hr. apply sorted_last_max; [|exact Hr]. rewrite <- Es. apply select_sorted.
   - rewrite (header_after f f' from (fst step) Hh Hu Hn Hv). apply registered_rt.
     rewrite <- Es in Hin. apply select_In in Hin. tauto.
@@ -438,11 +440,10 @@ Proof.
   intros tx j to fr j' fr' H. apply migrate_out in H.
   destruct H as [from [f [f' [step [-> [-> [Hh [Hin [Hmax [Hh' _]]]]]]]]]].
   exists from, (fst step). pose proof Hin as Hin'. apply select_In in Hin'. destruct Hin' as [Hr [Hlt Hto]].
-  repeat split; try assumption.
-  - now apply in_map.
+  split; [exact Hh|]. split; [exact Hh'|]. split; [now apply in_map|]. split; [exact Hlt|].
   - destruct to as [t|]; [exact Hto|].
     (* latest: the current version is registered and newer than the source, so it was selected; it is the greatest *)
-    pose proof registered_le_current_true as Hc. apply andb_true_iff in Hc. destruct Hc as [_ Hc].
+    pose proof registered_le_current_true as Hc. unfold registered_le_current in Hc. apply andb_true_iff in Hc. destruct Hc as [_ Hc].
     apply existsb_exists in Hc. destruct Hc as [c [Hc Hceq]].
     unfold veqb in Hceq. destruct (vcmp (fst c) current_spec_version) eqn:E; try discriminate. apply vcmp_eq in E.
     assert (Hcsel : In c (select_versions registered from None)).
